@@ -110,6 +110,19 @@ theorem C07_mismatch_never_result (proto : Proto) (rid : Int) (m : RespMsg) (p :
   subst h2
   exact hne h1
 
+/-- The retransmission after a notInTimeWindow report is under the same rule: whichever of the
+    two exchanges produced the result, its request-id is the id of the request. -/
+theorem C07_retry_rule (proto : Proto) (rid : Int) (first : FirstExchange) (second : Except Err RespMsg) (p : PduResp)
+    (h : sendRetry proto rid first second = .ok p) : p.requestId = rid := by
+  cases first with
+  | answer r => exact C07_recv_ok_id proto rid r p h
+  | timeWindowReport => exact C07_recv_ok_id proto rid second p h
+
+/-- … and a foreign id in the answer to the retransmitted request never yields a result. -/
+theorem C07_retry_mismatch (proto : Proto) (rid : Int) (m : RespMsg) (p : PduResp)
+    (hne : m.pdu.requestId ≠ rid) : sendRetry proto rid .timeWindowReport (.ok m) ≠ .ok p :=
+  C07_mismatch_never_result proto rid m p hne
+
 /-- A conformant agent that echoes the request id (right version, right community, no
     error) is always accepted, for v1, v2c and v3. -/
 theorem C07_echo_accepted (community : Bytes) (rid : Int) (pdu : PduResp)
